@@ -123,7 +123,11 @@ pub struct Setup {
 
 impl Setup {
     pub fn random(r: &mut Rng) -> Setup {
-        Setup { opts: Opts::random(r), bspec: BrancherSpec::random(r), style_seed: r.next() }
+        let mut opts = Opts::random(r);
+        if crate::config::FORCE_NOLEARNING.load(std::sync::atomic::Ordering::Relaxed) {
+            opts.resolver_uip = false;
+        }
+        Setup { opts, bspec: BrancherSpec::random(r), style_seed: r.next() }
     }
     pub fn describe(&self) -> String {
         format!("opts[{}] brancher[{}] style={}", self.opts.describe(), self.bspec.describe(), self.style_seed)
@@ -428,6 +432,24 @@ pub fn scen_assume(m: &Model, setup: &Setup, rounds: &[(Vec<Atom>, bool)], out: 
 }
 
 pub fn gen_assumptions(r: &mut Rng, m: &Model) -> Vec<Atom> {
+    if crate::config::EQ_ASSUME.load(std::sync::atomic::Ordering::Relaxed) {
+        // an equality strictly inside its domain is posted as two bound updates; the later
+        // assumptions are bounds which tend to conflict only after propagation
+        let n = 2 + r.usize(3);
+        let mut v = vec![];
+        for i in 0..n {
+            let x = r.usize(m.vars.len());
+            let d = &m.vars[x];
+            let inner: Vec<i32> = d.values.iter().copied().filter(|v| *v > d.lb() && *v < d.ub()).collect();
+            if (i == 0 || r.chance(1, 3)) && !inner.is_empty() {
+                v.push(Atom::Eq(x, inner[r.usize(inner.len())]));
+            } else {
+                let val = d.values[r.usize(d.values.len())];
+                v.push(if r.chance(1, 2) { Atom::Ge(x, val) } else { Atom::Le(x, val) });
+            }
+        }
+        return v;
+    }
     let n = r.usize(5);
     let mut v = vec![];
     for _ in 0..n {
